@@ -114,7 +114,7 @@ class SymBool(object):
         return SymBool(z3.Not(self.z))
 
     def __repr__(self):
-        return "SymBool(%s)" % self.z
+        return "SymBool(#%d)" % self.z.get_id()
 
 
 def sand(*a):
@@ -290,7 +290,9 @@ class Sym(object):
         return ENG.int_of(self)
 
     def __repr__(self):
-        return "Sym(%s)" % (self.z,)
+        # cheap on purpose: the code under test prints values in places
+        # (PieceWiseLinFunc.integral) and z3's pretty printer is slow on big terms
+        return "Sym(poison)" if self.z is None else "Sym(#%d)" % self.z.get_id()
 
 
 POISON = Sym(None)
@@ -505,7 +507,9 @@ class Engine(object):
         return x
 
     def sqrt_of(self, s):
-        k = z3.simplify(s.z).get_id()
+        # structural key (a term id would not survive garbage collection of the
+        # simplified term): equal polynomials get the same root symbol
+        k = z3.simplify(s.z, som=True, sort_sums=True).sexpr()
         if k in self._sqrt_cache:
             return self._sqrt_cache[k]
         r = z3.Real("sqrt!%d" % len(self._sqrt_cache))
